@@ -1,6 +1,7 @@
 import PMV.Lemmas.IndexEntries
 import PMV.Lemmas.IndexAssemble
 import PMV.Lemmas.IndexValid
+import PMV.Lemmas.IndexOneArr
 /-
   C09 — indexing reads exactly the selected elements; masked index entries mask results.
 -/
@@ -420,6 +421,280 @@ theorem getitemShaped_stages (shape : Shape) (mask : Mask) (indx : List Entry) (
   cases p.post with
   | all b => rfl
   | arr pm => rfl
+
+/-! ### end-to-end refinement with ONE array entry in any position (the class of defect 14) -/
+
+/-- the value of the (normalised) post-mask at a valid result coordinate is the per-element flag -/
+theorem postAt_norm (post : PostMask) (sh : Shape) (F : Index → Bool) (loc : Nat) (o : Index)
+    (hrep : PostRep post sh F) (hac : Valid sh ((o.drop loc).take sh.length)) (hnz : sh.all (· != 0) = true) :
+    postAt (if !(sh.all (· != 0)) then .all false else if post.all? then .all true else post) sh loc o
+      = F ((o.drop loc).take sh.length) := by
+  simp only [hnz, Bool.not_true, Bool.false_eq_true, if_false]
+  cases post with
+  | all c =>
+    have := hrep _ hac
+    cases c <;> simp [PostMask.all?, postAt, this]
+  | arr a =>
+    obtain ⟨hsh, hget⟩ := hrep
+    have hmem : (o.drop loc).take sh.length ∈ indices a.shape := by rw [hsh]; exact (mem_indices _ _).2 hac
+    cases hall : (PostMask.arr a).all? with
+    | true =>
+      simp only [if_true, postAt]
+      have := List.all_eq_true.mp (by simpa [PostMask.all?] using hall) _ hmem
+      rw [← hget _ hac]; exact this.symm
+    | false =>
+      simp only [Bool.false_eq_true, if_false, postAt, alignedPost]
+      rw [hsh, bidx_self hac, hget _ hac]
+
+/-- FULL (DESIGN §3 `getitem_one_array`): the same statement for a prefix that may also contain
+    integer entries, for shapes with empty axes (where KF-C09-1 applies to integer arrays), and —
+    with NumPy's placement in the conclusion — for an integer separated from the array (§8.2).
+
+    **getitem_one_array_partial.**  Index = plain entries (None / Ellipsis / slices / single
+    booleans, masked ones included) ++ ONE array entry (integer or boolean array or index object
+    with masked and out-of-range elements, any mask representation) ++ basic entries (integers
+    included), any rank, shape without empty axes, integers not separated from the array:
+    `__getitem__` raises IndexError exactly when the specification rejects the index; otherwise the
+    result has the specified shape — the array axes standing where the array entry stood — and
+    every element is masked iff its source element is masked or the selecting array element (or a
+    scalar entry) is masked / out of range, and reads the specified source element when it is not.
+    This is the class of DESIGN §2.7 defect 14 (`q[:, idx]`, `q[..., idx]`, `q[None, :, idx]`). -/
+theorem getitem_one_array_partial (shape : Shape) (mask : Mask) (pfx : List Entry) (e : Entry)
+    (suf : List Entry) (hpfx : pfx.all Entry.isPlain = true) (he : e.isArrE = true)
+    (hsuf : suf.all Entry.isBasic = true) (hpos : ∀ n ∈ shape, 0 < n)
+    (hsep : separated ((pfx ++ e :: suf).map Entry.isAdvE) = false) :
+    (sel shape (pfx ++ e :: suf) = none → getitemShaped shape mask (pfx ++ e :: suf) = none) ∧
+    (∀ sp, sel shape (pfx ++ e :: suf) = some sp →
+      ∃ r, getitemShaped shape mask (pfx ++ e :: suf) = some r ∧ r.shape = sp.shape ∧
+        ∀ o, Valid sp.shape o →
+          r.mask.bit o = (mask.bit (sp.src o) || sp.flag o) ∧
+          (sp.flag o = false → r.src o = sp.src o)) := by
+  have heE : e.isEll = false := by cases e <;> simp_all [Entry.isArrE, Entry.isEll]
+  have hokall := all_ok_one pfx e suf hpfx he hsuf
+  have hpfxarr : ∀ x ∈ pfx, x.isArrE = false := by
+    intro x hx
+    have := List.all_eq_true.mp hpfx x hx
+    cases x <;> simp_all [Entry.isPlain, Entry.isArrE]
+  have hsufarr : ∀ x ∈ suf.reverse, x.isArrE = false := by
+    intro x hx
+    have := List.all_eq_true.mp hsuf x (List.mem_reverse.mp hx)
+    cases x <;> simp_all [Entry.isBasic, Entry.isArrE]
+  have hk0 := findIdx_one pfx e suf hpfxarr he
+  have hkr : (pfx ++ e :: suf).reverse.findIdx? Entry.isArrE = some suf.length := by
+    have := findIdx_one suf.reverse e pfx.reverse hsufarr he
+    simpa using this
+  have hellk := ellK_lt (shape.length - totalAdvance (pfx ++ e :: suf)) pfx e suf heE
+  have htake : (pfx ++ e :: suf).take pfx.length = pfx := by simp
+  have hlen : (pfx ++ e :: suf).length = pfx.length + 1 + suf.length := by simp; omega
+  have hes'shape : (if (pfx ++ e :: suf).any Entry.isEll then pfx ++ e :: suf else (pfx ++ e :: suf) ++ [.ell])
+      = pfx ++ e :: (if (pfx ++ e :: suf).any Entry.isEll then suf else suf ++ [.ell]) := by
+    split <;> simp
+  generalize hes : pfx ++ e :: suf = es at *
+  have hex := expand_ok es hokall
+  by_cases hc : ellCountE es > 1
+  · have hp : prepIndex shape es = none := by
+      unfold prepIndex; simp only [hex]
+      have : (es.filter Entry.isEll).length > 1 := hc
+      simp [this]
+    exact ⟨fun _ => getitemShaped_prep_none _ _ _ hp, fun sp h => by simp [sel, selAtoms, hc] at h⟩
+  have hc1 : ellCountE (expand es) ≤ 1 := by rw [hex]; omega
+  by_cases ht : totalAdvance es > shape.length
+  · refine ⟨fun _ => ?_, fun sp h => by simp [sel, selAtoms, hc, ht] at h⟩
+    cases hany : es.any Entry.isEll with
+    | true =>
+      apply getitemShaped_prep_none
+      unfold prepIndex; simp only [hex]
+      have g1 : ¬ (es.filter Entry.isEll).length > 1 := hc
+      have g2 : (es.findIdx? Entry.isEll).isSome = true := by rw [List.findIdx?_isSome]; exact hany
+      simp [g1, g2, ht]
+    | false =>
+      have hpe := prepIndex_eq shape es hc1 (by rw [hex, hany]; intro h; cases h)
+      rw [hex] at hpe
+      cases hR : prog (shape.length - totalAdvance es) shape es (.all false) with
+      | none => exact getitemShaped_prep_none _ _ _ (by rw [hpe, hR])
+      | some x =>
+        obtain ⟨pre, post, shs⟩ := x
+        obtain ⟨_, m2, _, _, _⟩ := prog_maps _ es hokall _ _ _ _ _ hR
+        have hcons : consTotal pre = totalAdvance es := by
+          simp only [consTotal, totalAdvance, m2]
+        simp only [hR] at hpe
+        cases hB : bcastAll shs with
+        | none => exact getitemShaped_prep_none _ _ _ (by rw [hpe, hB])
+        | some ash =>
+          simp only [hB] at hpe
+          refine getitemShaped_np_none _ _ _ _ hpe ?_
+          show npIndex shape pre = none
+          unfold npIndex
+          have : consTotal pre > shape.length := by omega
+          simp [this]
+  -- the main case
+  have ht' : totalAdvance es ≤ shape.length := by omega
+  generalize hw : shape.length - totalAdvance es = w at *
+  have hpe := prepIndex_eq shape es hc1 (by rw [hex]; intro _; exact ht')
+  rw [hex, hw] at hpe
+  generalize hsuf'def : (if es.any Entry.isEll then suf else suf ++ [.ell]) = suf' at hes'shape
+  generalize hes' : (if es.any Entry.isEll then es else es ++ [.ell]) = es' at hes'shape
+  have hsuf' : suf'.all Entry.isBasic = true := by
+    rw [← hsuf'def]; split
+    · exact hsuf
+    · simp [List.all_append, hsuf, Entry.isBasic]
+  have hsel : selAtoms shape es = specAtoms w shape es' := by
+    simp only [selAtoms, hc, ht, if_false, hw, hes']
+  have hag := agree1_list w pfx hpfx e suf' shape false he hsuf' hpos
+  rw [← hes'shape] at hag
+  obtain ⟨ag1, ag2⟩ := hag
+  have hprog' : prog w shape es' (.all false) =
+      (prog w shape es (.all false)).map fun x =>
+        (if es.any Entry.isEll then x.1 else x.1 ++ [NEntry.ell], x.2.1, x.2.2) := by
+    rw [← hes']
+    cases hany : es.any Entry.isEll with
+    | true => simp
+    | false => simp [prog_append_ell]
+  cases hR : prog w shape es (.all false) with
+  | none =>
+    rw [hR] at hprog'
+    have hs := ag1 (by rw [hprog']; rfl)
+    refine ⟨fun _ => getitemShaped_prep_none _ _ _ (by rw [hpe, hR]), fun sp h => ?_⟩
+    simp [sel, hsel, hs] at h
+  | some x =>
+    obtain ⟨pre, post, shs⟩ := x
+    obtain ⟨m1, m2, m3, m4, m5⟩ := prog_maps _ es hokall _ _ _ _ _ hR
+    obtain ⟨e1, e2, e3, e4⟩ := map_eq_facts NEntry.isEll Entry.isEll pre es m1
+    obtain ⟨_, _, a3, _⟩ := map_eq_facts NEntry.isArr Entry.isArrE pre es m3
+    have hcons : consTotal pre = totalAdvance es := by simp only [consTotal, totalAdvance, m2]
+    have hellc : ellCount pre = ellCountE es := e1
+    rw [hR] at hprog'
+    simp only [Option.map_some] at hprog'
+    obtain ⟨b1, b2⟩ := ag2 _ _ _ hprog'
+    have hidx : (if pre.any NEntry.isEll then pre else pre ++ [NEntry.ell]) =
+        (if es.any Entry.isEll then pre else pre ++ [NEntry.ell]) := by rw [e2]
+    have hwpre : shape.length - consTotal pre = w := by rw [hcons]; exact hw
+    have hsepre : separated (pre.map NEntry.isAdv) = false := by rw [m4]; exact hsep
+    cases hS : specAtoms w shape es' with
+    | none =>
+      refine ⟨fun _ => ?_, fun sp h => by simp [sel, hsel, hS] at h⟩
+      have hnp : npIndex shape pre = none := by
+        unfold npIndex
+        have g1 : ¬ ellCount pre > 1 := by rw [hellc]; exact hc
+        have g2 : ¬ consTotal pre > shape.length := by rw [hcons]; exact ht
+        simp only [g1, g2, if_false, hwpre, hidx, b1 hS]
+      simp only [hR] at hpe
+      cases hB : bcastAll shs with
+      | none => exact getitemShaped_prep_none _ _ _ (by rw [hpe, hB])
+      | some ash =>
+        simp only [hB] at hpe
+        exact getitemShaped_np_none _ _ _ _ hpe hnp
+    | some sats =>
+      obtain ⟨sh, hshs, hrep, ats, hats, hsim⟩ := b2 sats hS
+      subst hshs
+      -- the specification's result
+      have hBs : bcastAll (SAtom.arrShapes sats) = some sh := hsim.2.2.1
+      have hselsp : sel shape es = specOf sats := by simp [sel, hsel, hS]
+      have hspec : specOf sats = some ⟨(SAtom.lens sats).take (SAtom.axesBefore sats) ++ sh ++ (SAtom.lens sats).drop (SAtom.axesBefore sats),
+          fun o => SAtom.walk sats (splitAt (SAtom.axesBefore sats) sh.length o).1 (splitAt (SAtom.axesBefore sats) sh.length o).2,
+          fun o => SAtom.flag sats (splitAt (SAtom.axesBefore sats) sh.length o).2⟩ := by
+        simp [specOf, hBs]
+      refine ⟨fun h => (by rw [hselsp, hspec] at h; cases h), fun sp h => ?_⟩
+      rw [hselsp, hspec] at h
+      cases h
+      -- NumPy's result
+      have hnp := npIndex_sim shape pre ats sats sh (by rw [hellc]; omega) (by rw [hcons]; exact ht')
+        (by rw [hwpre, hidx]; exact hats) hsim hsepre
+      -- where `_prep_index` says the array axes are
+      have hfit : EllFits w shape.length es' := by
+        have htot : totalAdvance es' = totalAdvance es := by
+          rw [← hes']; split
+          · rfl
+          · simp [totalAdvance, Entry.advance]
+        have hcnt : ellCountE es' ≤ 1 := by
+          rw [← hes']
+          cases hany : es.any Entry.isEll with
+          | true => simp; omega
+          | false =>
+            have : (es.filter Entry.isEll).length = 0 := by
+              have := List.any_eq_false.mp hany
+              rw [List.length_eq_zero_iff, List.filter_eq_nil_iff]
+              intro x hx; simpa using this x hx
+            simp [ellCountE, List.filter_append, this, Entry.isEll, List.filter]
+        have := ellFits_guard es' shape.length hcnt (by rw [htot]; exact ht')
+        rw [htot, hw] at this
+        exact this
+      have hLspec : SAtom.axesBefore sats = pfxAxes w pfx := by
+        rw [hes'shape] at hS hfit
+        exact specAtoms_axesBefore w e suf' he pfx hpfx shape sats hfit hS
+      have hpfxell : (pfx.filter Entry.isEll).length ≤ 1 := by
+        have : (pfx.filter Entry.isEll).length ≤ (es.filter Entry.isEll).length := by
+          rw [← hes, List.filter_append, List.length_append]; omega
+        have : ellCountE es ≤ 1 := by omega
+        unfold ellCountE at this; omega
+      have hloc : locate pre (es.findIdx? Entry.isEll) w = (SAtom.axesBefore sats, false) := by
+        have hprelen : pre.length = pfx.length + 1 + suf.length := by rw [e4, hlen]
+        have hrev : pre.reverse.findIdx? NEntry.isArr = some suf.length := by
+          have hm : pre.reverse.map NEntry.isArr = es.reverse.map Entry.isArrE := by
+            rw [List.map_reverse, List.map_reverse, m3]
+          rw [(map_eq_facts NEntry.isArr Entry.isArrE pre.reverse es.reverse hm).2.2.1]; exact hkr
+        rw [locate_one pre _ w pfx.length suf.length (by rw [a3]; exact hk0) hrev hprelen, hsepre]
+        simp only [Bool.false_eq_true, if_false, Prod.mk.injEq, and_true]
+        have hm : (pre.take pfx.length).map NEntry.isNC = (es.take pfx.length).map Entry.isNCE := by
+          rw [List.map_take, List.map_take, m5]
+        rw [(map_eq_facts NEntry.isNC Entry.isNCE _ _ hm).1, htake, hellk, hLspec,
+          pfxAxes_count w pfx hpfx hpfxell]
+      have hp : prepIndex shape es = some ⟨pre,
+          (if !(sh.all (· != 0)) then .all false else if post.all? then .all true else post),
+          (es.findIdx? Entry.isEll).isSome, false, sh, SAtom.axesBefore sats⟩ := by
+        rw [hpe, hR]
+        simp only [bcastAll, hloc]
+        rw [show bcast sh [] = some sh from bcast_nil_right sh]
+      -- assemble
+      have hr := getitemShaped_stages shape mask es _ _ hp hnp
+      simp only [Bool.false_eq_true, if_false] at hr
+      refine ⟨_, hr, rfl, ?_⟩
+      intro o ho
+      have hLle : SAtom.axesBefore sats ≤ (SAtom.lens sats).length := by
+        rw [← hsim.2.2.2.2.1, ← hsim.1]; exact axesBefore_le ats
+      have hac : Valid sh ((o.drop (SAtom.axesBefore sats)).take sh.length) := by
+        have := valid_mid ho
+        simpa [List.length_take, Nat.min_eq_left hLle] using this
+      have hnz : sh.all (· != 0) = true := by
+        rw [List.all_eq_true]
+        intro n hn
+        have : n ≠ 0 := by
+          intro h0; subst h0
+          exact not_valid_of_zero (s := (SAtom.lens sats).take (SAtom.axesBefore sats) ++ sh ++ (SAtom.lens sats).drop (SAtom.axesBefore sats)) (by simp [hn]) ho
+        simpa using this
+      have hmi := mask_iff mask (if !(sh.all (· != 0)) then .all false else if post.all? then .all true else post)
+        ⟨(SAtom.lens sats).take (SAtom.axesBefore sats) ++ sh ++ (SAtom.lens sats).drop (SAtom.axesBefore sats),
+          fun o => walk ats (splitAt (SAtom.axesBefore sats) sh.length o).1 (splitAt (SAtom.axesBefore sats) sh.length o).2⟩
+        sh (SAtom.lens sats) (SAtom.axesBefore sats) o rfl hLle ho (by
+          intro pm hpm
+          simp only [hnz, Bool.not_true, Bool.false_eq_true, if_false] at hpm
+          split at hpm
+          · cases hpm
+          · subst hpm
+            rw [hrep.1]; exact bcast_self sh)
+      have hpa := postAt_norm post sh _ (SAtom.axesBefore sats) o hrep hac hnz
+      simp only [Bool.false_or] at hpa
+      have hflagac : SAtom.flag sats (splitAt (SAtom.axesBefore sats) sh.length o).2
+          = SAtom.flag sats ((o.drop (SAtom.axesBefore sats)).take sh.length) := rfl
+      show (mergeMask mask _ _ sh (SAtom.axesBefore sats)).bit o = _ ∧ _
+      rw [hmi, hpa]
+      cases hfl : SAtom.flag sats ((o.drop (SAtom.axesBefore sats)).take sh.length) with
+      | true => simp [hflagac, hfl]
+      | false =>
+        have hw' := hsim.2.2.2.2.2 (splitAt (SAtom.axesBefore sats) sh.length o).1 _ hac hfl
+        have hw'' : walk ats (splitAt (SAtom.axesBefore sats) sh.length o).1 (splitAt (SAtom.axesBefore sats) sh.length o).2
+            = SAtom.walk sats (splitAt (SAtom.axesBefore sats) sh.length o).1 (splitAt (SAtom.axesBefore sats) sh.length o).2 := hw'
+        simp only [hflagac, hfl, Bool.or_false, hw'', true_and]
+        intro _; trivial
+
+/-- non-vacuity: `q[:, Scalar([0, 9, 2], mask=[F, F, T])]` on shape (3,4) — the defect-14 example -/
+example :
+    let es : List Entry := [.slice true [0, 1, 2],
+      .iarr ⟨[3], fun i => [0, 9, 2].getD (i.headD 0) 0⟩ (.arr ⟨[3], fun i => [false, false, true].getD (i.headD 0) false⟩)]
+    (sel [3, 4] es).isSome = true ∧ separated (es.map Entry.isAdvE) = false ∧
+    (sel [3, 4] es).map (fun sp => (sp.shape, sp.flag [0, 0], sp.flag [0, 1], sp.flag [2, 2], sp.src [1, 0])) =
+      some ([3, 3], false, true, true, [1, 0]) := by
+  refine ⟨rfl, rfl, rfl⟩
 
 /-! ### derivatives, iteration, length -/
 
